@@ -474,6 +474,14 @@ func checkC07(c *Ctx, w *World) {
 	checkSwap(pl)
 	// "the replacement takes over the channel (its bound keys, …)": every connection-indexed table follows the swap
 	pl.checkRetire("C07.swap-tables", func(string) bool { return true })
+	// "… and the old connection keeps serving until / the replacement takes over": the replacement enters the state
+	// table with the state recorded for the channel (a transfer paired with the removal of the old entry), not with a
+	// state of its own that the evaluator never counted — otherwise the channel can stay out of every later picker
+	importPremises(c, w, "C04", checkC04, []string{"C04.pair"}, "C07.states")
+	// "… takes over the channel (… active streams …)": a call in flight at the take-over completes against the slot — the
+	// completion closure is the one Pick built for the placed slot and resolves the slot's connection when it runs
+	// (C02.pick), so its stream count, its BIND and its detector input land on the channel, not on the retired connection
+	importPremises(c, w, "C02", checkC02, []string{"C02.pick"}, "C07.inflight")
 }
 
 // checkWindow: the window is derived from refreshCnt and the configured period, with no arithmetic narrower than 64 bits.
